@@ -92,7 +92,7 @@ def impl_write(G, uri, inc, newver=None):
 def write_request(tables, uri, inc, newver, fname):
     return [Sym("write_doc"), tables[:4], [uri, inc, T0.isoformat(), "NOW", [] if newver is None else [newver], fname]]
 
-def make_graph(rng, quick, hostile=False, clash=False, shape=None):
+def make_graph(rng, quick, hostile=False, clash=False, shape=None, extra=None):
     if shape == "wide":      # ten namespaces with one or two nodes each and sparse dependencies: compaction over a long table
         g = nsgen.gen_graph(rng, n_ns=rng.randint(9, 11), n_nodes=rng.randint(12, 16), hostile=hostile, dangling=False, value_gen=parseprops.value_gen)
     else:
@@ -128,6 +128,7 @@ def make_graph(rng, quick, hostile=False, clash=False, shape=None):
             for a_, v_ in list(n["attrs"].items()):
                 if isinstance(v_, tuple) and v_[0] == C: n["attrs"][a_] = (UA, "i", "85") if a_ != "DataType" else (UA, "i", "24")
         g.refs = [r for r in g.refs if not ((r[0][0] == A or r[1][0] == A) and C in (r[0][0], r[1][0], r[2][0]))]
+    if extra: extra(g)
     if clash:          # one browse name carried by nodes of two node classes
         own = [k for k in g.order if k[0] != UA]
         pairs = [(a, b) for a in own for b in own if g.nodes[a]["cls"] != g.nodes[b]["cls"]]
@@ -145,7 +146,9 @@ def make_graph(rng, quick, hostile=False, clash=False, shape=None):
                 n["attrs"]["DataType"] = dk
             else:
                 n["attrs"]["DataType"] = (UA, "i", "24")          # BaseDataType: not a built-in name
-    ds = nsgen.serialise(g, rng, value_xml=parseprops.value_xml)
+    # every third graph has a companion file whose name sorts BEFORE the base nodeset: the internal ids of the base nodes then differ from graph to graph
+    fnames = {g.uris[0]: "A%02d_first.xml" % rng.randint(0, 99)} if g.uris and rng.random() < 0.35 else None
+    ds = nsgen.serialise(g, rng, value_xml=parseprops.value_xml, file_names=fnames)
     return g, ds
 
 REG_REQS = []; REG_META = []; TXT_REQS = []; TXT_META = []; CAUSES_OF = {}; RT_REQS = []; RT_META = []
